@@ -629,6 +629,49 @@ func checkSuperTriangle(ctx *Ctx, r *Report) {
 		}
 	}
 	r.check("Y6", "superTriangle|size-follows-both-extents", fn.Pos(), ok, "the width of the enclosing triangle grows with the extent of the points along x and its height with their extent along y;"+detail)
+	// containment wherever the cloud lies: Bowyer-Watson needs every point inside the triangle,
+	// near the origin or a million extents away from it. The closed form is evaluated for
+	// bounding boxes at increasing distance from the origin; each corner of the box must be
+	// strictly inside the triangle.
+	bad := ""
+	nBox := 0
+	for _, b := range [][4]float64{{0, 0, 1, 1}, {-50, -50, 50, 50}, {1000, 1000, 1001, 1001}, {30000, -20000, 30001, -19999}, {100, 50, 100.01, 50.005},
+		{-4.2e6, 7.7e5, -4.2e6 + 10, 7.7e5 + 3}, {5, -900000, 6, -899990}, {-3, -2, -1, 40}} {
+		env := map[string]float64{minX: b[0], minY: b[1], maxX: b[2], maxY: b[3]}
+		var px, py [3]float64
+		okE := true
+		for v := 0; v < 3; v++ {
+			var o1, o2 bool
+			px[v], o1 = evalFloat(stripConv(xs[v]), env)
+			py[v], o2 = evalFloat(stripConv(ys[v]), env)
+			okE = okE && o1 && o2
+		}
+		if !okE {
+			continue
+		}
+		nBox++
+		for _, c := range [][2]float64{{b[0], b[1]}, {b[2], b[1]}, {b[0], b[3]}, {b[2], b[3]}} {
+			pos, neg := 0, 0
+			for v := 0; v < 3; v++ {
+				w := (v + 1) % 3
+				cr := (px[w]-px[v])*(c[1]-py[v]) - (py[w]-py[v])*(c[0]-px[v])
+				if cr > 0 {
+					pos++
+				} else if cr < 0 {
+					neg++
+				}
+			}
+			if !(pos == 3 || neg == 3) && len(bad) < 300 {
+				bad += fmt.Sprintf(" points spanning [%g,%g]x[%g,%g]: corner (%g,%g) is outside the triangle (%.6g,%.6g) (%.6g,%.6g) (%.6g,%.6g);", b[0], b[2], b[1], b[3], c[0], c[1], px[0], py[0], px[1], py[1], px[2], py[2])
+				break
+			}
+		}
+	}
+	if nBox == 0 {
+		r.undecided("Y6", "superTriangle|contains-the-points-wherever-they-lie", fn.Pos(), "the triangle is not a closed form of the four bounds")
+		return
+	}
+	r.check("Y6", "superTriangle|contains-the-points-wherever-they-lie", fn.Pos(), bad == "", fmt.Sprintf("%d bounding boxes at up to 10^6 extents from the origin;%s", nBox, bad))
 }
 
 // ---------------------------------------------------------------- Y7: triangle list and its flags
